@@ -130,7 +130,7 @@ func (g *lexGram) TM(forceRuleMode bool) string {
 	return sb.String()
 }
 
-var c11Keywords = []string{"if", "in", "int", "is", "for", "fn", "func", "else", "elif", "e", "do", "done", "a", "ab", "abc", "while", "when", "with", "x", "y", "xy", "yx", "return", "let", "var", "val", "nil", "not", "and", "or"}
+var c11Keywords = []string{"if", "in", "int", "is", "for", "fn", "func", "else", "elif", "e", "do", "done", "a", "ab", "abc", "while", "when", "with", "x", "y", "xy", "yx", "return", "let", "var", "val", "nil", "not", "and", "or", "like", "skip", "task", "break", "ok", "select", "k", "s", "sk"}
 var c11UniKeywords = []string{"été", "é", "для", "да", "中", "中文", "naïve", "ça", "ΑΒ", "😀"}
 
 func pick[T any](r *rand.Rand, l []T) T { return l[r.Intn(len(l))] }
@@ -143,7 +143,10 @@ func genLexGram(r *rand.Rand, name string, hashBuggy bool) *lexGram {
 	o.TokenLineOffset = r.Intn(6) == 0
 	o.ScanBytes = r.Intn(4) == 0
 	o.NoBOM = r.Intn(6) == 0
-	o.Fold = r.Intn(10) == 0
+	o.Fold = r.Intn(4) == 0
+	if o.Fold && r.Intn(2) == 0 {
+		o.ScanBytes = true // scanBytes x caseInsensitive: ASCII-only folding
+	}
 	tag := func(s string) { g.Tags = append(g.Tags, s) }
 	add := func(rl lexRule) {
 		g.Rules = append(g.Rules, rl)
@@ -287,8 +290,10 @@ func genLexGram(r *rand.Rand, name string, hashBuggy bool) *lexGram {
 			kws = append(kws, kw)
 		}
 	}
-	if len(kws) == 0 {
-		withClass = false // a class rule without specialisations is rejected by the compiler
+	if len(kws) == 0 || o.Fold {
+		// a class rule without specialisations is rejected by the compiler; with caseInsensitive the
+		// keyword patterns are no constants, so keywords stay ordinary rules above a low-priority id
+		withClass = false
 	}
 	if withClass {
 		add(lexRule{sc: idSC, name: "id", pat: idPat, attr: "(class)", frags: idFrags})
@@ -376,6 +381,35 @@ func genLexGram(r *rand.Rand, name string, hashBuggy bool) *lexGram {
 	// any other character
 	if r.Intn(6) == 0 {
 		add(lexRule{sc: sc(), name: "other", pat: `[^\x00-\x7f]`, prio: "-2", frags: []string{"é", "中"}})
+	}
+	// several short tokens that are prefixes of ONE longer rule with a shared tail: when the long match
+	// fails after 1..n tail characters the lexer must fall back to the token it started with
+	if r.Intn(3) == 0 {
+		s := sc()
+		tails := [][3]string{{`[~^%]::!`, "::!", ":"}, {`(~|\^|%)::*!`, "::!", ":"}, {`[~^%]:;:!`, ":;:!", ":;"}}
+		t := tails[r.Intn(len(tails))]
+		add(lexRule{sc: s, name: "'~'", pat: `~`, frags: []string{"~", "~" + t[2]}})
+		add(lexRule{sc: s, name: "'^'", pat: `\^`, frags: []string{"^", "^" + t[2], "^" + t[1][:len(t[1])-1]}})
+		add(lexRule{sc: s, name: "'%'", pat: `%`, frags: []string{"%", "%" + t[2], "%" + t[1]}})
+		add(lexRule{sc: s, name: "tail3", pat: t[0], frags: []string{"~" + t[1], "^" + t[1], "%" + t[1][:2], "~:", "^::", "%^:~:", ":", "!"}})
+		tag("shared-tail-prefix-tokens")
+	}
+	if o.Fold {
+		// upper-case and mixed-case spellings, in particular K and S (their fold orbits pass through
+		// U+212A / U+017F before reaching the other ASCII case)
+		var more []string
+		for _, f := range g.Frags {
+			if up := strings.ToUpper(f); up != f {
+				more = append(more, up)
+				more = append(more, strings.ToUpper(f[:1])+f[1:])
+			}
+		}
+		g.Frags = append(g.Frags, more...)
+		g.Frags = append(g.Frags, "K", "S", "Sky", "KISS", "tasK", "ſ", "\u212a", "SELECT", "Like")
+		tag("case-insensitive")
+		if o.ScanBytes {
+			tag("case-insensitive x scanBytes")
+		}
 	}
 	o.NonBacktracking = r.Intn(12) == 0
 	g.Frags = append(g.Frags, "é", "я", "中", "😀", "\xff", "\xc3", "\xed\xa0\x80", "\xc0\x80", "\xf4\x90\x80\x80", "\xe2\x82", "\xef\xbb\xbf", "$", "%", "\x00", "\x7f", "\x80", "\u0080")
